@@ -813,6 +813,47 @@ def schemaTypeViols (a : Attrs) (hasItems : Bool) (ty : String) : List Viol :=
   when (ty = "string" && a.str "pattern" != "" && badPatterns.contains (a.str "pattern")) "badPattern" ++
   when (ty = "array" && !hasItems) "arrayNoItems"
 
+/-- Security Scheme Object (OpenAPI 3.0.3 §4.7.27): `type` is one of four; `name` and `in` are required for
+apiKey and apply to apiKey only; `scheme` is required for http (the library knows four schemes) and
+`bearerFormat` applies to http bearer only; `flows` is required for oauth2 and applies to it only;
+`openIdConnectUrl` is required for openIdConnect -/
+def securitySchemeViols (d : Doc) : List Viol :=
+  let a := d.attrs
+  let ty := a.str "type"
+  when (!(ty = "apiKey" || ty = "http" || ty = "oauth2" || ty = "openIdConnect")) "secType" ty ++
+  when (ty = "http" && !(["bearer", "basic", "negotiate", "digest"].contains (a.str "scheme"))) "secHttpScheme" ++
+  when (ty = "openIdConnect" && a.str "openIdConnectUrl" = "") "secOidcUrlMissing" ++
+  when (ty = "apiKey" && !(["query", "header", "cookie"].contains (a.str "in"))) "secApiKeyIn" ++
+  when (ty = "apiKey" && a.str "name" = "") "secApiKeyNameMissing" ++
+  when (ty != "apiKey" && a.str "in" != "") "secInMisplaced" ++
+  when (ty != "apiKey" && a.str "name" != "") "secNameMisplaced" ++
+  when (!(ty = "http" && a.str "scheme" = "bearer") && a.str "bearerFormat" != "") "secBearerFormatMisplaced" ++
+  when (ty = "oauth2" && !d.hasKid "flows") "secFlowsMissing" ++
+  when (ty != "oauth2" && d.hasKid "flows") "secFlowsMisplaced"
+
+/-- OAuth Flow Object (§4.7.29): `authorizationUrl` is required for (and applies only to) the implicit and
+authorizationCode flows, `tokenUrl` for password, clientCredentials and authorizationCode; `scopes` is required -/
+def oauthFlowViols (d : Doc) : List Viol :=
+  let a := d.attrs
+  let ft := a.str "flowType"
+  let needAuth := ft = "implicit" || ft = "authorizationCode"
+  let needTok := ft = "password" || ft = "clientCredentials" || ft = "authorizationCode"
+  when (needAuth && a.str "authorizationUrl" = "") "flowAuthorizationUrlMissing" ++
+  when (!needAuth && a.str "authorizationUrl" != "") "flowAuthorizationUrlMisplaced" ++
+  when (needTok && a.str "tokenUrl" = "") "flowTokenUrlMissing" ++
+  when (!needTok && a.str "tokenUrl" != "") "flowTokenUrlMisplaced" ++
+  when (!a.flag "hasScopes") "flowScopesMissing"
+
+/-- Server Object (§4.7.5): `url` is required; its braces pair up; every `{variable}` of the template is
+declared under `variables` and every declared variable occurs in the template -/
+def serverViols (d : Doc) : List Viol :=
+  let url := (d.attrs.str "url").toList
+  let vars := (d.kidsAt "variables").map keyOf
+  when url.isEmpty "serverUrlMissing" ++
+  when (countChar '{' url != countChar '}' url) "serverUrlBraces" ++
+  when (countChar '{' url != vars.length) "serverVariablesCount" ++
+  when (!(vars.all (fun n => isInfix (('{' :: n.toList) ++ ['}']) url))) "serverVariableUnused"
+
 /-- rule violations at a node (option-independent; `enabled` says which are in force) -/
 def violations (d : Doc) : List Viol :=
   let a := d.attrs
@@ -865,9 +906,9 @@ def violations (d : Doc) : List Viol :=
       when (!hasVal a && a.str "externalValue" = "") "noValue" ++ extraViols a
   | .link => when (a.str "operationId" = "" && a.str "operationRef" = "") "linkNoTarget" ++
       when (a.str "operationId" != "" && a.str "operationRef" != "") "linkBothTargets" ++ extraViols a
-  | .securityScheme => when (!securitySchemeShapeOK d) "illFormedSecurityScheme" ++ extraViols a
-  | .oauthFlow => when (!oauthFlowShapeOK d) "illFormedFlow" ++ extraViols a
-  | .server => when (a.flag "null") "nullEntry" ++ when (!serverShapeOK d) "illFormedServer" ++ extraViols a
+  | .securityScheme => securitySchemeViols d ++ extraViols a
+  | .oauthFlow => oauthFlowViols d ++ extraViols a
+  | .server => when (a.flag "null") "nullEntry" ++ serverViols d ++ extraViols a
   | .serverVar => when (a.flag "null") "nullEntry" ++ when (a.str "default" = "") "missingDefault" ++ extraViols a
   | .tag => when (a.flag "null") "nullEntry" ++ extraViols a
   | .externalDocs => when (a.str "url" = "") "missingUrl" ++ extraViols a
